@@ -1,6 +1,6 @@
 (* Proofs/GenFuncsProofs.v — tie T1, semantic part: every definition of Gen/GenFuncs.v (produced by
    tools/qf2coq/funcs.go from the Go text of a small pure function) equals the hand-written model function
-   for all inputs of the Go parameter types.  After an edit of such a Go function the regenerated definition
+   for all inputs of the Go argument types.  After an edit of such a Go function the regenerated definition
    changes and the corresponding lemma below stops compiling.
 
    Conventions: the generated functions work on Z (a value of type uintN is a Z in [0, 2^N), of intN a Z in
@@ -8,7 +8,7 @@
    generated function (Ok x -> Some (f x); a panic of the model -> None; the models concerned never return
    Fail, see the *_no_fail lemmas). *)
 From QF Require Import Base.Prelude Gen.GenConsts Gen.GenRyu Gen.GenFuncs.
-From QF Require Model.Ryu Model.Bits Model.Grouper Model.Sort Model.Frame.
+From QF Require Model.Ryu Model.Bits Model.Grouper Model.Sort Model.Frame Model.Ops.
 Local Open Scope Z_scope.
 
 Definition o2o {A B : Type} (f : A -> B) (o : outcome A) : option B :=
@@ -651,4 +651,361 @@ Proof.
   pose proof (strip10_no_fail 20 (Ryu.shr64 mant' shift) 0) as NF.
   destruct (Ryu.strip10 20 (Ryu.shr64 mant' shift) 0) as [[m2 e2]| |]; cbn; try reflexivity.
   apply NF; reflexivity.
+Qed.
+
+(* ------------------------------------------------------------------ internal/ryu: float64ToDecimal
+   The whole digit generation (steps 2-4 of Ryu, ~200 lines of Go with four loops) as translated equals the
+   hand-written model Ryu.float64ToDecimal for ALL mant, exp (no range premise). *)
+Ltac zn c := let n := eval compute in (Z.to_N c) in change c with (Z.of_N n).
+
+Definition gt1 (s : Ryu.gstate) : Z * Z * Z * bool * bool * Z * Z :=
+  (Z.of_N (Ryu.g_vr s), Z.of_N (Ryu.g_vp s), Z.of_N (Ryu.g_vm s), Ryu.g_vmTZ s, Ryu.g_vrTZ s, Ryu.g_removed s,
+   Z.of_N (Ryu.g_last s)).
+Definition gt2 (s : Ryu.gstate) : Z * Z * Z * bool * Z * Z :=
+  (Z.of_N (Ryu.g_vr s), Z.of_N (Ryu.g_vp s), Z.of_N (Ryu.g_vm s), Ryu.g_vrTZ s, Ryu.g_removed s,
+   Z.of_N (Ryu.g_last s)).
+Definition ct (s : Ryu.cstate) : Z * Z * Z * Z * bool :=
+  (Z.of_N (Ryu.c_vr s), Z.of_N (Ryu.c_vp s), Z.of_N (Ryu.c_vm s), Ryu.c_removed s, Ryu.c_roundUp s).
+
+Lemma u8_eq x : Z.of_N (Ryu.u8 x) = gu8 (Z.of_N x).
+Proof. unfold Ryu.u8, gu8. rewrite N2Z.inj_mod. reflexivity. Qed.
+
+Ltac pullN := rewrite <- ?N2Z.inj_div, <- ?N2Z.inj_mod, <- ?N2Z.inj_add, <- ?N2Z.inj_mul, <- ?u8_eq, <- ?u64_eq, <- ?u32_eq,
+                ?of_N_eqb, ?of_N_leb, ?of_N_ltb, ?Z.gtb_ltb, ?Z.geb_leb, ?of_N_eqb, ?of_N_leb, ?of_N_ltb.
+
+Lemma loop1_eq (fuel : nat) : forall s : Ryu.gstate,
+  gf_ryu_float64ToDecimal_loop1 fuel (Z.of_N (Ryu.g_vr s)) (Z.of_N (Ryu.g_vp s)) (Z.of_N (Ryu.g_vm s))
+    (Ryu.g_vmTZ s) (Ryu.g_vrTZ s) (Ryu.g_removed s) (Z.of_N (Ryu.g_last s))
+  = o2o gt1 (Ryu.gen_loop1 fuel s).
+Proof.
+  induction fuel as [|f IH]; intros s; [reflexivity|].
+  cbn [gf_ryu_float64ToDecimal_loop1 Ryu.gen_loop1]. cbv zeta.
+  zn 10; zn 0. pullN.
+  destruct (Ryu.g_vp s / 10 <=? Ryu.g_vm s / 10)%N; [reflexivity|].
+  rewrite <- IH. reflexivity.
+Qed.
+
+Lemma loop2_eq (fuel : nat) : forall s : Ryu.gstate,
+  gf_ryu_float64ToDecimal_loop2 fuel (Z.of_N (Ryu.g_vr s)) (Z.of_N (Ryu.g_vp s)) (Z.of_N (Ryu.g_vm s))
+    (Ryu.g_vrTZ s) (Ryu.g_removed s) (Z.of_N (Ryu.g_last s))
+  = o2o gt2 (Ryu.gen_loop2 fuel s)
+  /\ (forall s', Ryu.gen_loop2 fuel s = Ok s' -> Ryu.g_vmTZ s' = Ryu.g_vmTZ s).
+Proof.
+  induction fuel as [|f IH]; intros s; [split; [reflexivity|discriminate]|].
+  cbn [gf_ryu_float64ToDecimal_loop2 Ryu.gen_loop2]. cbv zeta.
+  zn 10; zn 0. pullN.
+  destruct (Ryu.g_vm s mod 10 =? 0)%N; cbn [negb]; [|split; [reflexivity|intros s' E; injection E as <-; reflexivity]].
+  match goal with |- context [Ryu.gen_loop2 f ?st] => destruct (IH st) as [E1 E2] end.
+  split; [rewrite <- E1; reflexivity|exact E2].
+Qed.
+
+Lemma loop3_eq (fuel : nat) : forall s : Ryu.cstate,
+  gf_ryu_float64ToDecimal_loop3 fuel (Z.of_N (Ryu.c_vr s)) (Z.of_N (Ryu.c_vp s)) (Z.of_N (Ryu.c_vm s))
+    (Ryu.c_removed s) (Ryu.c_roundUp s)
+  = o2o ct (Ryu.com_loop100 fuel s).
+Proof.
+  induction fuel as [|f IH]; intros s; [reflexivity|].
+  cbn [gf_ryu_float64ToDecimal_loop3 Ryu.com_loop100]. cbv zeta.
+  zn 100; zn 50. pullN.
+  destruct (Ryu.c_vm s / 100 <? Ryu.c_vp s / 100)%N; [|reflexivity].
+  rewrite <- IH. reflexivity.
+Qed.
+
+Lemma loop4_eq (fuel : nat) : forall s : Ryu.cstate,
+  gf_ryu_float64ToDecimal_loop4 fuel (Z.of_N (Ryu.c_vr s)) (Z.of_N (Ryu.c_vp s)) (Z.of_N (Ryu.c_vm s))
+    (Ryu.c_removed s) (Ryu.c_roundUp s)
+  = o2o ct (Ryu.com_loop10 fuel s).
+Proof.
+  induction fuel as [|f IH]; intros s; [reflexivity|].
+  cbn [gf_ryu_float64ToDecimal_loop4 Ryu.com_loop10]. cbv zeta.
+  zn 10; zn 5. pullN.
+  destruct (Ryu.c_vm s / 10 <? Ryu.c_vp s / 10)%N; [|reflexivity].
+  rewrite <- IH. reflexivity.
+Qed.
+
+Definition tup3 (r : Ryu.step3 * bool) : Z * Z * Z * Z * bool * bool :=
+  let st := fst r in
+  (Z.of_N (Ryu.s_vr st), Z.of_N (Ryu.s_vp st), Z.of_N (Ryu.s_vm st), Ryu.s_e10 st, Ryu.s_vmTZ st, Ryu.s_vrTZ st).
+
+Lemma gs32_add_l a b : gs32 (gs32 a + b) = gs32 (a + b).
+Proof.
+  unfold gs32. f_equal.
+  replace ((a + 2147483648) mod 4294967296 - 2147483648 + b + 2147483648) with ((a + 2147483648) mod 4294967296 + b) by lia.
+  rewrite Zplus_mod_idemp_l. f_equal. lia.
+Qed.
+Lemma gs32_sub_l a b : gs32 (gs32 a - b) = gs32 (a - b).
+Proof. exact (gs32_add_l a (- b)). Qed.
+
+Definition pairZ (p : N * N) : Z * Z := (Z.of_N (fst p), Z.of_N (snd p)).
+Lemma pow5InvSplit64_table : gt_ryu_pow5InvSplit64 = map pairZ g_pow5InvSplit64.
+Proof. reflexivity. Qed.
+Lemma pow5Split64_table : gt_ryu_pow5Split64 = map pairZ g_pow5Split64.
+Proof. reflexivity. Qed.
+
+Lemma gidx_mapN {A B} (f : A -> B) (l : list A) (n : Z) (q : N) : n = Z.of_nat (length l) ->
+  gidx n (map f l) (Z.of_N q) = o2o f (Ryu.idxN l q).
+Proof.
+  intros ->. unfold gidx, Ryu.idxN, idx.
+  destruct (Z.ltb_spec (Z.of_N q) 0) as [Ht|Ht]; [lia|]. cbn [orb].
+  destruct (Z.leb_spec (Z.of_nat (length l)) (Z.of_N q)) as [H|H]; destruct (N.ltb_spec q (N.of_nat (length l))) as [H'|H'];
+    try lia; [reflexivity|].
+  replace (Z.to_nat (Z.of_N q)) with (N.to_nat q) by lia. rewrite nth_error_map. destruct (nth_error l (N.to_nat q)); reflexivity.
+Qed.
+
+Lemma gidx_mapZ {A B} (f : A -> B) (l : list A) (n i : Z) : n = Z.of_nat (length l) ->
+  gidx n (map f l) i = o2o f (Ryu.idxZ l i).
+Proof.
+  intros Hn. unfold Ryu.idxZ. destruct (Z.ltb_spec i 0) as [Hi|Hi].
+  - unfold gidx. destruct (Z.ltb_spec i 0); [reflexivity|lia].
+  - rewrite <- (Z2N.id i Hi) at 1. apply gidx_mapN. exact Hn.
+Qed.
+
+Lemma mpo5_eqN (v p : N) :
+  gf_ryu_multipleOfPowerOfFive64 (Z.of_N v) (Z.of_N p) = o2o (fun b : bool => b) (Ryu.multipleOfPowerOfFive64 v p).
+Proof. rewrite gf_ryu_multipleOfPowerOfFive64_eq by lia. rewrite !N2Z.id. reflexivity. Qed.
+
+Lemma mpo2_eqN (v p : N) : (v < Ryu.two64N)%N ->
+  gf_ryu_multipleOfPowerOfTwo64 (Z.of_N v) (Z.of_N p) = Ryu.multipleOfPowerOfTwo64 v p.
+Proof. intros H. rewrite gf_ryu_multipleOfPowerOfTwo64_eq; [rewrite !N2Z.id; reflexivity| |lia]. unfold Ryu.two64N in H. lia. Qed.
+
+Lemma b2n_le1 b : (Ryu.b2n b <= 1)%N.
+Proof. destruct b; cbn; lia. Qed.
+
+Lemma gf_ryu_float64ToDecimal_eq (mant exp : N) : gf_ryu_float64ToDecimal (Z.of_N mant) (Z.of_N exp) = o2o dec_of (Ryu.float64ToDecimal mant exp).
+Proof.
+  unfold gf_ryu_float64ToDecimal, Ryu.float64ToDecimal, Ryu.f2d_step3.
+  change c_bias64 with 1023%N; change c_mantBits64 with 52%N.
+  change (Ryu.shl64 1 52) with 4503599627370496%N.
+  change (gu64 (Z.shiftl 1 52)) with 4503599627370496.
+  match goal with
+  | |- (match ?X with pair a b => @?F a b end) = o2o _ (obind (match ?Y with pair c d => @?G c d end) ?H) =>
+      assert (CORE : forall (e2 : Z) (m2 : N), F e2 (Z.of_N m2) = o2o dec_of (obind (G e2 m2) H))
+  end.
+  2:{ zn 0. rewrite of_N_eqb. destruct (exp =? 0)%N.
+      - exact (CORE (-1076) mant).
+      - zn 4503599627370496. rewrite <- of_N_lor.
+        replace (gs32 (gs32 (gs32 (gs32 (Z.of_N exp) - 1023) - 52) - 2)) with (Ryu.i32 (Ryu.i32_of_N exp - Z.of_N 1023 - Z.of_N 52 - 2)).
+        + exact (CORE _ (N.lor 4503599627370496 mant)).
+        + change (Ryu.i32 (Ryu.i32_of_N exp - Z.of_N 1023 - Z.of_N 52 - 2)) with (gs32 (gs32 (Z.of_N exp) - 1023 - 52 - 2)).
+          rewrite !gs32_sub_l.
+          replace (gs32 (Z.of_N exp) - 1023 - 52 - 2) with (gs32 (Z.of_N exp) - 1077) by lia.
+          replace (gs32 (Z.of_N exp - 1023) - 52 - 2) with (gs32 (Z.of_N exp - 1023) - 54) by lia.
+          rewrite !gs32_sub_l. f_equal. lia. }
+
+  intros e2 m2. cbv beta zeta.
+  change Ryu.c_e2_pos_cut with 3; change Ryu.c_e2_neg_cut with 1; change Ryu.c_q_pos_small with 21%N;
+    change Ryu.c_q_neg_small with 1%N; change Ryu.c_q_neg_max with 63%N;
+    change c_pow5InvNumBits64 with 122%N; change c_pow5NumBits64 with 121%N.
+  set (mv := Ryu.u64 (4 * m2)).
+  set (mmShift := Ryu.b2n (negb (mant =? 0)%N || (exp <=? 1)%N)).
+  set (mp := Ryu.u64 (mv + 2)).
+  set (mm := Ryu.sub64 (Ryu.sub64 mv 1) mmShift).
+  assert (E_mv : gu64 (4 * Z.of_N m2) = Z.of_N mv) by (unfold mv; rewrite u64_eq, N2Z.inj_mul; reflexivity).
+  assert (E_ms : gf_ryu_boolToUint64 (negb (Z.of_N mant =? 0) || (Z.of_N exp <=? 1)) = Z.of_N mmShift).
+  { rewrite gf_ryu_boolToUint64_eq. zn 0; zn 1. rewrite of_N_eqb, of_N_leb. reflexivity. }
+  rewrite !E_mv, !E_ms.
+  assert (E_mp : gu64 (Z.of_N mv + 2) = Z.of_N mp) by (unfold mp; rewrite u64_eq, N2Z.inj_add; reflexivity).
+  assert (E_mm : gu64 (gu64 (Z.of_N mv - 1) - Z.of_N mmShift) = Z.of_N mm).
+  { unfold mm. pose proof (b2n_le1 (negb (mant =? 0)%N || (exp <=? 1)%N)) as Hb. fold mmShift in Hb.
+    rewrite !sub64_eq by (unfold Ryu.two64N; lia). reflexivity. }
+  rewrite !E_mp, !E_mm.
+  change gs32 with Ryu.i32. change (Z.of_N 122) with 122. change (Z.of_N 121) with 121.
+  match goal with |- gbind ?X ?K = o2o _ (obind ?M _) =>
+    assert (HAB : forall r, M = Ok r -> snd r = (N.land m2 1 =? 0)%N);
+    [|assert (HX : X = o2o tup3 M)] end.
+  { intros r.
+    repeat match goal with
+    | |- context [obind ?x _] => destruct x; cbn [obind]
+    | |- context [if ?b then _ else _] => destruct b
+    end; intros E; try discriminate; injection E as <-; reflexivity. }
+  { rewrite Z.geb_leb. destruct (0 <=? e2).
+    - rewrite gf_ryu_log10Pow2_eq. destruct (Ryu.log10Pow2 e2) as [l| |]; cbn [o2o gbind obind]; try reflexivity.
+      set (q := Ryu.sub32 l (Ryu.b2n (3 <? e2))).
+      assert (Eq : gu32 (Z.of_N l - gf_ryu_boolToUint32 (e2 >? 3)) = Z.of_N q).
+      { unfold q. rewrite gf_ryu_boolToUint32_eq, Z.gtb_ltb. pose proof (b2n_le1 (3 <? e2)). rewrite sub32_eq by (unfold Ryu.two32N; lia). reflexivity. }
+      rewrite !Eq.
+      change (Ryu.i32 (Z.of_N q)) with (Ryu.i32_of_N q).
+      rewrite gf_ryu_pow5Bits_eq. destruct (Ryu.pow5Bits (Ryu.i32_of_N q)) as [pb| |]; cbn [o2o gbind obind]; try reflexivity.
+      unfold idZ.
+      rewrite pow5InvSplit64_table, (gidx_mapN pairZ g_pow5InvSplit64 292 q) by reflexivity.
+      destruct (Ryu.idxN g_pow5InvSplit64 q) as [[lo hi]| |]; cbn [o2o gbind obind pairZ fst snd]; try reflexivity.
+      rewrite !mulShift64_eqN.
+      match goal with |- context [Ryu.mulShift64 mv (lo, hi) ?sh] => set (shift := sh) end.
+      destruct (Ryu.mulShift64 mv (lo, hi) shift) as [vr| |]; cbn [o2o gbind obind]; try reflexivity.
+      destruct (Ryu.mulShift64 mp (lo, hi) shift) as [vp| |]; cbn [o2o gbind obind]; try reflexivity.
+      destruct (Ryu.mulShift64 mm (lo, hi) shift) as [vm| |]; cbn [o2o gbind obind]; try reflexivity.
+      zn 21. rewrite of_N_leb. destruct (q <=? 21)%N; [|reflexivity].
+      zn 5; zn 0; zn 1. rewrite <- N2Z.inj_mod, <- of_N_land, !of_N_eqb.
+      destruct (mv mod 5 =? 0)%N.
+      + rewrite mpo5_eqN. destruct (Ryu.multipleOfPowerOfFive64 mv q) as [t| |]; reflexivity.
+      + destruct (N.land m2 1 =? 0)%N.
+        * rewrite mpo5_eqN. destruct (Ryu.multipleOfPowerOfFive64 mm q) as [t| |]; reflexivity.
+        * rewrite mpo5_eqN. destruct (Ryu.multipleOfPowerOfFive64 mp q) as [[|]| |]; try reflexivity.
+          cbn [o2o gbind obind tup3 fst snd Ryu.s_vr Ryu.s_vp Ryu.s_vm Ryu.s_e10 Ryu.s_vmTZ Ryu.s_vrTZ].
+          unfold tup3; cbn [fst snd Ryu.s_vr Ryu.s_vp Ryu.s_vm Ryu.s_e10 Ryu.s_vmTZ Ryu.s_vrTZ]. rewrite sub64_eq by (unfold Ryu.two64N; lia). reflexivity.
+    - set (ne2 := Ryu.i32 (- e2)).
+      rewrite gf_ryu_log10Pow5_eq. destruct (Ryu.log10Pow5 ne2) as [l| |]; cbn [o2o gbind obind]; try reflexivity.
+      set (q := Ryu.sub32 l (Ryu.b2n (1 <? ne2))).
+      assert (Eq : gu32 (Z.of_N l - gf_ryu_boolToUint32 (ne2 >? 1)) = Z.of_N q).
+      { unfold q. rewrite gf_ryu_boolToUint32_eq, Z.gtb_ltb. pose proof (b2n_le1 (1 <? ne2)). rewrite sub32_eq by (unfold Ryu.two32N; lia). reflexivity. }
+      rewrite !Eq.
+      change (Ryu.i32 (Z.of_N q)) with (Ryu.i32_of_N q).
+      set (i := Ryu.i32 (ne2 - Ryu.i32_of_N q)).
+      rewrite gf_ryu_pow5Bits_eq. destruct (Ryu.pow5Bits i) as [pb| |]; cbn [o2o gbind obind]; try reflexivity.
+      unfold idZ.
+      rewrite pow5Split64_table, (gidx_mapZ pairZ g_pow5Split64 326 i) by reflexivity.
+      destruct (Ryu.idxZ g_pow5Split64 i) as [[lo hi]| |]; cbn [o2o gbind obind pairZ fst snd]; try reflexivity.
+      rewrite !mulShift64_eqN.
+      match goal with |- context [Ryu.mulShift64 mv (lo, hi) ?sh] => set (shift := sh) end.
+      destruct (Ryu.mulShift64 mv (lo, hi) shift) as [vr| |]; cbn [o2o gbind obind]; try reflexivity.
+      destruct (Ryu.mulShift64 mp (lo, hi) shift) as [vp| |]; cbn [o2o gbind obind]; try reflexivity.
+      destruct (Ryu.mulShift64 mm (lo, hi) shift) as [vm| |]; cbn [o2o gbind obind]; try reflexivity.
+      zn 1; zn 0; zn 63. rewrite <- of_N_land, !of_N_eqb, of_N_leb, of_N_ltb.
+      unfold tup3.
+      destruct (q <=? 1)%N.
+      + destruct (N.land m2 1 =? 0)%N; cbn [o2o fst snd Ryu.s_vr Ryu.s_vp Ryu.s_vm Ryu.s_e10 Ryu.s_vmTZ Ryu.s_vrTZ]; [reflexivity|].
+        rewrite sub64_eq by (unfold Ryu.two64N; lia). reflexivity.
+      + destruct (q <? 63)%N; cbn [o2o fst snd Ryu.s_vr Ryu.s_vp Ryu.s_vm Ryu.s_e10 Ryu.s_vmTZ Ryu.s_vrTZ]; [|reflexivity].
+        rewrite <- sub32_eq by (unfold Ryu.two32N; lia). rewrite mpo2_eqN by apply u64_lt. reflexivity. }
+  rewrite HX. clear HX.
+  match goal with |- context [o2o tup3 ?M] => destruct M as [[st ab]| |] eqn:EM end; cbn [o2o gbind obind]; try reflexivity.
+  specialize (HAB _ eq_refl). cbn [snd] in HAB. subst ab. clear EM.
+  destruct st as [vr vp vm e10 vmTZ vrTZ]. unfold tup3. cbn [fst snd Ryu.s_vr Ryu.s_vp Ryu.s_vm Ryu.s_e10 Ryu.s_vmTZ Ryu.s_vrTZ].
+  unfold Ryu.f2d_step4. cbn [Ryu.s_vr Ryu.s_vp Ryu.s_vm Ryu.s_e10 Ryu.s_vmTZ Ryu.s_vrTZ].
+  change Ryu.loop_fuel with 24%nat.
+  destruct (vmTZ || vrTZ).
+  - match goal with |- context [Ryu.gen_loop1 24 ?s] => set (s0 := s) end.
+    change (gf_ryu_float64ToDecimal_loop1 24 (Z.of_N vr) (Z.of_N vp) (Z.of_N vm) vmTZ vrTZ 0 0)
+      with (gf_ryu_float64ToDecimal_loop1 24 (Z.of_N (Ryu.g_vr s0)) (Z.of_N (Ryu.g_vp s0)) (Z.of_N (Ryu.g_vm s0))
+              (Ryu.g_vmTZ s0) (Ryu.g_vrTZ s0) (Ryu.g_removed s0) (Z.of_N (Ryu.g_last s0))).
+    rewrite loop1_eq. destruct (Ryu.gen_loop1 24 s0) as [s1| |]; cbn [o2o gbind obind]; try reflexivity.
+    unfold gt1. cbv beta iota.
+    match goal with |- gbind (gbind ?X _) _ = o2o _ (obind ?M _) =>
+      assert (H2 : X = o2o gt2 M /\ forall s2, M = Ok s2 -> Ryu.g_vmTZ s2 = Ryu.g_vmTZ s1) end.
+    { destruct (Ryu.g_vmTZ s1) eqn:E1.
+      - destruct (loop2_eq 24 s1) as [L2 L2tz]. rewrite L2. split; [|intros s2 E; rewrite (L2tz s2 E); exact E1].
+        destruct (Ryu.gen_loop2 24 s1) as [s2| |]; reflexivity.
+      - split; [reflexivity|]. intros s2 E; injection E as <-; exact E1. }
+    destruct H2 as [H2 H2tz]. rewrite H2. clear H2.
+    match goal with |- context [o2o gt2 ?M] => destruct M as [s2| |] end; cbn [o2o gbind obind]; try reflexivity.
+    rewrite <- (H2tz s2 eq_refl). unfold gt2, dec_of. cbn [gbind fst snd]. f_equal. f_equal.
+    zn 5; zn 2; zn 0; zn 4; zn 1. rewrite <- N2Z.inj_mod, <- of_N_land, !of_N_eqb.
+    destruct (Ryu.g_vrTZ s2 && (Ryu.g_last s2 =? 5)%N && (Ryu.g_vr s2 mod 2 =? 0)%N);
+      rewrite Z.geb_leb, of_N_leb;
+      match goal with |- (if ?c then _ else _) = Z.of_N (if ?c then _ else _) => destruct c end;
+      try reflexivity; rewrite u64_eq, N2Z.inj_add; reflexivity.
+  - match goal with |- context [Ryu.com_loop100 24 ?s] => set (s0 := s) end.
+    change (gf_ryu_float64ToDecimal_loop3 24 (Z.of_N vr) (Z.of_N vp) (Z.of_N vm) 0 false)
+      with (gf_ryu_float64ToDecimal_loop3 24 (Z.of_N (Ryu.c_vr s0)) (Z.of_N (Ryu.c_vp s0)) (Z.of_N (Ryu.c_vm s0))
+              (Ryu.c_removed s0) (Ryu.c_roundUp s0)).
+    rewrite loop3_eq. destruct (Ryu.com_loop100 24 s0) as [s1| |]; cbn [o2o gbind obind]; try reflexivity.
+    unfold ct at 1. cbv beta iota.
+    rewrite loop4_eq. destruct (Ryu.com_loop10 24 s1) as [s2| |]; cbn [o2o gbind obind]; try reflexivity.
+    unfold ct, dec_of. cbn [gbind fst snd]. f_equal. f_equal.
+    rewrite gf_ryu_boolToUint64_eq, of_N_eqb, u64_eq, N2Z.inj_add. reflexivity.
+Qed.
+
+
+(* ------------------------------------------------------------------ none of the models concerned returns Fail
+   ([o2o] sends both Fail and Panic to None; with these lemmas None on the right means Panic) *)
+
+Lemma obind_no_fail {A B} (x : outcome A) (f : A -> outcome B) :
+  x <> Fail -> (forall a, f a <> Fail) -> obind x f <> Fail.
+Proof. intros Hx Hf. destruct x as [a| |]; cbn [obind]; [apply Hf|exfalso; apply Hx; reflexivity|discriminate]. Qed.
+
+Lemma of_option_no_fail {A} (o : option A) : of_option o <> Fail.
+Proof. destruct o; discriminate. Qed.
+Lemma idxN_no_fail {A} (l : list A) i : Ryu.idxN l i <> Fail.
+Proof. unfold Ryu.idxN, idx. destruct (i <? N.of_nat (length l))%N; [apply of_option_no_fail|discriminate]. Qed.
+Lemma idxZ_no_fail {A} (l : list A) i : Ryu.idxZ l i <> Fail.
+Proof. unfold Ryu.idxZ. destruct (i <? 0); [discriminate|apply idxN_no_fail]. Qed.
+
+Ltac nofail :=
+  repeat first
+    [ discriminate
+    | assumption
+    | apply assert_no_fail | apply idxN_no_fail | apply idxZ_no_fail
+    | apply obind_no_fail; [|intros ?]
+    | match goal with |- (if ?b then _ else _) <> Fail => destruct b end
+    | match goal with |- (let '(_, _) := ?p in _) <> Fail => destruct p end ].
+
+Lemma log10Pow2_no_fail e : Ryu.log10Pow2 e <> Fail.
+Proof. unfold Ryu.log10Pow2. nofail. Qed.
+Lemma log10Pow5_no_fail e : Ryu.log10Pow5 e <> Fail.
+Proof. unfold Ryu.log10Pow5. nofail. Qed.
+Lemma pow5Bits_no_fail e : Ryu.pow5Bits e <> Fail.
+Proof. unfold Ryu.pow5Bits. nofail. Qed.
+Lemma decimalLen64_no_fail u : Ryu.decimalLen64 u <> Fail.
+Proof. unfold Ryu.decimalLen64. nofail. Qed.
+Lemma shiftRight128_no_fail v s : Ryu.shiftRight128 v s <> Fail.
+Proof. unfold Ryu.shiftRight128. nofail. Qed.
+Lemma mulShift64_no_fail m mul s : Ryu.mulShift64 m mul s <> Fail.
+Proof. unfold Ryu.mulShift64. destruct mul. cbv zeta. apply shiftRight128_no_fail. Qed.
+Lemma pow5Factor64_aux_no_fail fuel : forall v n, Ryu.pow5Factor64_aux fuel v n <> Fail.
+Proof. induction fuel as [|f IH]; intros v n; cbn [Ryu.pow5Factor64_aux]; [discriminate|]. destruct (v mod 5 =? 0)%N; [apply IH|discriminate]. Qed.
+Lemma multipleOfPowerOfFive64_no_fail v p : Ryu.multipleOfPowerOfFive64 v p <> Fail.
+Proof. unfold Ryu.multipleOfPowerOfFive64, Ryu.pow5Factor64. apply obind_no_fail; [apply pow5Factor64_aux_no_fail|discriminate]. Qed.
+Lemma gen_loop1_no_fail fuel : forall s, Ryu.gen_loop1 fuel s <> Fail.
+Proof. induction fuel as [|f IH]; intros s; cbn [Ryu.gen_loop1]; [discriminate|]. cbv zeta. destruct (_ <=? _)%N; [discriminate|apply IH]. Qed.
+Lemma gen_loop2_no_fail fuel : forall s, Ryu.gen_loop2 fuel s <> Fail.
+Proof. induction fuel as [|f IH]; intros s; cbn [Ryu.gen_loop2]; [discriminate|]. destruct (negb _); [discriminate|apply IH]. Qed.
+Lemma com_loop100_no_fail fuel : forall s, Ryu.com_loop100 fuel s <> Fail.
+Proof. induction fuel as [|f IH]; intros s; cbn [Ryu.com_loop100]; [discriminate|]. destruct (_ <? _)%N; [apply IH|discriminate]. Qed.
+Lemma com_loop10_no_fail fuel : forall s, Ryu.com_loop10 fuel s <> Fail.
+Proof. induction fuel as [|f IH]; intros s; cbn [Ryu.com_loop10]; [discriminate|]. destruct (_ <? _)%N; [apply IH|discriminate]. Qed.
+
+Lemma float64ToDecimal_no_fail mant exp : Ryu.float64ToDecimal mant exp <> Fail.
+Proof.
+  unfold Ryu.float64ToDecimal. apply obind_no_fail.
+  - unfold Ryu.f2d_step3. cbv zeta.
+    repeat first
+      [ discriminate
+      | apply log10Pow2_no_fail | apply log10Pow5_no_fail | apply pow5Bits_no_fail | apply mulShift64_no_fail
+      | apply multipleOfPowerOfFive64_no_fail | apply idxN_no_fail | apply idxZ_no_fail
+      | apply obind_no_fail; [|intros ?]
+      | match goal with |- (if ?b then _ else _) <> Fail => destruct b end
+      | match goal with |- (let '(_, _) := ?p in _) <> Fail => destruct p end ].
+  - intros [st ab]. unfold Ryu.f2d_step4. cbn [fst snd].
+    repeat first
+      [ discriminate
+      | apply gen_loop1_no_fail | apply gen_loop2_no_fail | apply com_loop100_no_fail | apply com_loop10_no_fail
+      | apply obind_no_fail; [|intros ?]
+      | match goal with |- (if ?b then _ else _) <> Fail => destruct b end ].
+Qed.
+
+Lemma max_depth_loop_no_fail fuel : forall i d, Sort.max_depth_loop fuel i d <> Fail.
+Proof. induction fuel as [|f IH]; intros i d; cbn [Sort.max_depth_loop]; [discriminate|]. destruct (_ <? _)%nat; [apply IH|discriminate]. Qed.
+Lemma max_depth_no_fail n : Sort.max_depth n <> Fail.
+Proof. unfold Sort.max_depth. apply obind_no_fail; [apply max_depth_loop_no_fail|discriminate]. Qed.
+
+(* ------------------------------------------------------------------ internal/strings/name.go *)
+
+Lemma ghasprefix1_eq (s : list N) (c : N) : ghasprefix (map Z.of_N s) [Z.of_N c] = Ops.has_prefix1 s c.
+Proof.
+  destruct s as [|x s]; cbn [map ghasprefix Ops.has_prefix1]; [reflexivity|].
+  rewrite of_N_eqb, N.eqb_sym. destruct (x =? c)%N; destruct (map Z.of_N s); reflexivity.
+Qed.
+
+Lemma ghassuffix1_eq (s : list N) (c : N) : ghassuffix (map Z.of_N s) [Z.of_N c] = Ops.has_suffix1 s c.
+Proof.
+  unfold ghassuffix, Ops.has_suffix1. rewrite <- map_rev. cbn [rev app].
+  rewrite ghasprefix1_eq. reflexivity.
+Qed.
+
+Lemma gf_strings_isQuoted_eq (s : list N) : gf_strings_isQuoted (map Z.of_N s) = Ops.is_quoted s.
+Proof.
+  unfold gf_strings_isQuoted, Ops.is_quoted. rewrite map_length.
+  change [39] with [Z.of_N 39]; change [34] with [Z.of_N 34].
+  rewrite !ghasprefix1_eq, !ghassuffix1_eq. f_equal.
+  rewrite Z.gtb_ltb. destruct (Z.ltb_spec 2 (Z.of_nat (length s))), (Nat.ltb_spec 2 (length s)); try reflexivity; lia.
+Qed.
+
+(* CheckName: the error result is observed as nil (true) / not nil (false) *)
+Lemma gf_strings_CheckName_eq (s : list N) : gf_strings_CheckName (map Z.of_N s) = Ops.check_name s.
+Proof.
+  unfold gf_strings_CheckName, Ops.check_name. rewrite map_length, gf_strings_isQuoted_eq.
+  change [36] with [Z.of_N 36]. rewrite ghasprefix1_eq.
+  destruct (Z.eqb_spec (Z.of_nat (length s)) 0) as [E|E]; destruct (Nat.eqb_spec (length s) 0) as [E'|E']; try lia;
+    cbn [negb andb]; try reflexivity.
+  all: destruct (Ops.is_quoted s); cbn [negb andb]; [reflexivity|]; destruct (Ops.has_prefix1 s 36); reflexivity.
 Qed.
